@@ -65,6 +65,13 @@ def random_array(rng, legs, dtype=float, qtotal=None, drop_blocks=0.3, zero_bloc
             a.isort_qdata()
         else:
             perm = rng.permutation(len(a._data))
+            if storage == 'shuffled':
+                # explicitly requested: make sure the order really is non-lexicographic
+                srt = np.lexsort(a._qdata.T)
+                for _ in range(6):
+                    if not np.array_equal(srt[perm] if False else np.lexsort(a._qdata[perm].T), np.arange(len(perm))):
+                        break
+                    perm = rng.permutation(len(a._data))
             a._data = [a._data[i] for i in perm]
             a._qdata = np.ascontiguousarray(a._qdata[perm])
             a._qdata_sorted = False
